@@ -70,6 +70,16 @@ def oracle(ctx, o, rp):
         ctx.violation('structure:' + b.split()[0], b, replay=rp)
 
 
+def snapshot(model, n, prof, K):
+    return dict(n=n, levels=np.array(model.pressure.pressure_profile_levels, float),
+                 P=np.array(model.pressureProfile, float), T=np.array(model.temperatureProfile, float),
+                 rho=np.array(model.densityProfile, float), z=np.array(model.altitudeProfile, float),
+                 zb=np.array(model.altitude_boundaries, float), dz=np.array(model.deltaz, float),
+                 g=np.array(model.gravity_profile, float), H=np.array(model.scaleheight_profile, float),
+                 mu=np.array(model.chemistry.muProfile, float), profiles=prof,
+                 GM=float(K.G) * float(model.planet.fullMass), R=float(model.planet.fullRadius), k=float(K.KBOLTZ))
+
+
 def run(ctx):
     from taurex import constants as K
     from taurex.data.planet import Planet
@@ -91,13 +101,7 @@ def run(ctx):
         except Exception as e:
             ctx.violation('impl-raises:' + C.err_kind(e), 'model raised %r' % (e,), replay=rp)
             continue
-        o = dict(n=n, levels=np.array(model.pressure.pressure_profile_levels, float),
-                 P=np.array(model.pressureProfile, float), T=np.array(model.temperatureProfile, float),
-                 rho=np.array(model.densityProfile, float), z=np.array(model.altitudeProfile, float),
-                 zb=np.array(model.altitude_boundaries, float), dz=np.array(model.deltaz, float),
-                 g=np.array(model.gravity_profile, float), H=np.array(model.scaleheight_profile, float),
-                 mu=np.array(model.chemistry.muProfile, float), profiles=prof,
-                 GM=float(K.G) * float(model.planet.fullMass), R=float(model.planet.fullRadius), k=float(K.KBOLTZ))
+        o = snapshot(model, n, prof, K)
         if not np.all(np.isfinite(o['zb'])) or o['zb'][-1] > 50 * o['R']:
             # runaway atmosphere (scale height comparable to the radius): altitudes overflow binary64; outside
             # what floating point can represent, skipped and counted
@@ -111,6 +115,32 @@ def run(ctx):
         m2.append((o, rp, spec))
         ctx.count('layers:%d' % n)
         ctx.count('T:' + ('iso' if len(spec['T']) == 1 else 'profile'))
+        if rng.random() < 0.5:
+            # the same model with its pressure bounds and planet changed through the fitting parameters, evaluated again
+            new = dict(atm_min_pressure=spec['pmin'] * 10 ** rng.uniform(-0.4, 0.4),
+                       atm_max_pressure=spec['pmax'] * 10 ** rng.uniform(-0.4, 0.4),
+                       planet_mass=spec['planet_mass'] * rng.uniform(0.8, 1.25))
+            rp2 = dict(spec=spec, updated=new)
+            try:
+                with np.errstate(all='ignore'):
+                    for k_, v_ in new.items():
+                        model[k_] = v_
+                    model.initialize_profiles()
+                    prof2 = model.generate_profiles()
+                o2 = snapshot(model, n, prof2, K)
+            except Exception as e:
+                ctx.violation('impl-raises:update', 'model raised %r after updating %r' % (e, new), replay=rp2)
+                continue
+            if not np.all(np.isfinite(o2['zb'])) or o2['zb'][-1] > 50 * o2['R']:
+                ctx.count('skipped:runaway-atmosphere')
+                continue
+            oracle(ctx, o2, rp2)
+            e1.append('run_levels %s %s %s' % (C.iv(math.log10(new['atm_min_pressure'])), C.iv(math.log10(new['atm_max_pressure'])), C.natlit(n)))
+            m1.append((o2, rp2))
+            e2.append('run_scale %s %s %s %s %s %s %s' % (C.iv(o2['GM']), C.iv(o2['R']), C.iv(o2['k']), C.ivlist(o2['T']),
+                                                         C.ivlist(o2['mu']), C.ivlist(o2['levels']), C.ivlist(o2['P'])))
+            m2.append((o2, rp2, spec))
+            ctx.count('re-evaluated after update')
     # direct calls on arbitrary decreasing levels
     e3, m3 = [], []
     for i in range(ctx.n(40, 300)):
